@@ -214,6 +214,14 @@ def run(f, fixture, rep, cfg, tier):
         got = norm(got)
         rep.check(got == want, "R6", "carry|%s" % fmt_key(b.path), "%s carries its components through unchanged" % fmt_key(b.path),
                   "%s computes %s (expected %s): a component is substituted, reordered or transformed" % (b.path, got[:240], want), b.span)
+    # the splitters only split: every call they make cuts the text at a separator or picks a default - no filtering, parsing,
+    # trimming or rewriting of a component (which would make parse reject or alter text that format produced)
+    SPLIT_OK = r"(split_once|rsplit_once|split|rsplit|splitn|rsplitn|split_terminator|find|rfind|split_at|unwrap_or|unwrap_or_else|unwrap_or_default|map_or|map_or_else|Index::index|<impl str>::get|len|is_empty|Iterator::next|DoubleEndedIterator::next_back|Try::branch|FromResidual::from_residual|Into::into|From::from)(?:::<.*)?$"
+    for rx in (r"version::Evr::<'a>::parse_values$", r"version::Nevra::<'a>::parse_values$"):
+        for b in [x for x in f.find(rx=rx) if x.kind != "closure"]:
+            extra = sorted({c.decl for x in [b] + f.closures_of(b) for c in x.calls() if not re.search(SPLIT_OK, c.decl)})
+            rep.check(not extra, "R6", "splitter-calls|%s" % fmt_key(b.path), "%s only splits at separators" % fmt_key(b.path),
+                      "%s also applies %s: a component is accepted conditionally or transformed, so some text that Display produces no longer parses back to the same value" % (b.path, extra[:4]), b.span)
     # the splitters return slices of their input; the only literal allowed is the empty string for a missing part
     for rx in (r"version::Evr::<'a>::parse_values$", r"version::Nevra::<'a>::parse_values$"):
         for b in [x for x in f.find(rx=rx) if x.kind != "closure"]:
